@@ -280,6 +280,58 @@ class T(Entity):
             self.o0 <<= q ^ _q ^ r0
             self.o1 <<= q_ ^ r1
 """),
+    # the same entity instantiated several times, every instance output drives its own object
+    "same-entity-instantiated-twice": (False, """from cohdl import std, Entity, Port, Bit, BitVector, Unsigned, Signal, Variable
+import cohdl
+class Leaf(Entity):
+    a = Port.input(BitVector[2])
+    y = Port.output(BitVector[2])
+    def architecture(self):
+        @std.concurrent
+        def logic():
+            self.y <<= ~self.a
+class T(Entity):
+    i = Port.input(BitVector[2])
+    xin = Port.input(BitVector[2])
+    o0 = Port.output(BitVector[2])
+    o1 = Port.output(BitVector[2])
+    def architecture(self):
+        s = Signal[BitVector[2]](name='s')
+        Leaf(a=self.i, y=self.o0)
+        Leaf(a=self.xin, y=s)
+        @std.concurrent
+        def logic():
+            self.o1 <<= s
+"""),
+    "same-entity-three-instances-chained": (False, """from cohdl import std, Entity, Port, Bit, BitVector, Unsigned, Signal, Variable
+import cohdl
+class Leaf(Entity):
+    a = Port.input(Unsigned[2])
+    y = Port.output(Unsigned[2])
+    def architecture(self):
+        @std.concurrent
+        def logic():
+            self.y <<= self.a + 1
+class Mid(Entity):
+    a = Port.input(Unsigned[2])
+    y = Port.output(Unsigned[2])
+    def architecture(self):
+        t = Signal[Unsigned[2]](name='t')
+        Leaf(a=self.a, y=t)
+        Leaf(a=t, y=self.y)
+class T(Entity):
+    i = Port.input(Unsigned[2])
+    xin = Port.input(Unsigned[2])
+    o0 = Port.output(Unsigned[2])
+    o1 = Port.output(Unsigned[2])
+    def architecture(self):
+        s0 = Signal[Unsigned[2]](name='s0')
+        s1 = Signal[Unsigned[2]](name='s1')
+        Mid(a=self.i, y=s0)
+        Leaf(a=s0, y=s1)
+        Mid(a=self.xin, y=self.o1)
+        Leaf(a=s1, y=self.o0)
+"""),
     "process-reads-always-block-intermediate": (False, ["with cohdl.always:", "    t = self.i | self.xin", "self.o1 <<= t", "self.o0[0] <<= t[1]"]),
 }
 
